@@ -358,6 +358,12 @@ func checkC19(w *World, r *Report) {
 		why := ""
 		if len(iss) > 0 {
 			why = iss[0].Why + " at " + w.PosStr(iss[0].Pos)
+			// second view: pairing by path conditions (guard clauses, continue instead of nesting)
+			ef := w.SSAFunc(w.Method("data/encoding", "JSONWriter", "encodeJsonChildren"))
+			if ssaPairing(w, ef, func(c *ssa.Call) bool { return c.Call.StaticCallee() != nil && c.Call.StaticCallee().Object() == types.Object(push) },
+				func(c *ssa.Call) bool { return c.Call.StaticCallee() != nil && c.Call.StaticCallee().Object() == types.Object(pop) }) == "" {
+				iss = nil
+			}
 		}
 		r.Check(len(iss) == 0 && o > 0 && c > 0, "R19.8", "encodeJsonChildren: PushName/PopName", fd.Pos(), fmt.Sprintf("%d push, %d pop, balanced on every path", o, c), "module-name stack unbalanced ("+why+"): later siblings are written with the wrong (or a missing) module qualifier, so the RFC 7951 text no longer decodes to the same tree")
 		isTok := func(ce *ast.CallExpr, typ string) bool {
